@@ -195,6 +195,11 @@ B64DecU == SeqsUpTo(B64Text, IF Big THEN 5 ELSE 4)
            \cup {q \o <<81, 85, 74, 68>> : q \in B64Quad}                       \* a non-final quad
            \cup {Repl(<<81, 85, 74, 68, 82, 69, 86, 71>>, i, <<x>>) : i \in 1..8, x \in B64Other \cup B64Text}
            \cup {Ins(<<81, 85, 74, 68>>, i, <<x>>) : i \in 0..4, x \in B64Other}
+           \* non-ASCII characters whose UTF-8 length makes the BYTE length a multiple of four
+           \* (the character count is not): 2+2, 1+1+2, 4, 3+1 bytes, alone and after a good quad
+           \cup {pre \o x : pre \in {<<>>, <<81, 85, 74, 68>>},
+                             x \in {<<233, 233>>, <<65, 65, 233>>, <<233, 65, 65>>, <<65, 233, 65>>, <<128526>>,
+                                    <<8364, 65>>, <<65, 8364>>, <<119070>>, <<233, 61, 61>>, <<65, 233, 61>>}}
            \cup {<<B64Char(v), B64Char(w), 61, 61>> : v \in {0, 63}, w \in 0..63}    \* every pad-bit pattern
            \cup {<<65, B64Char(v), B64Char(w), 61>> : v \in {0, 63}, w \in 0..63}
            \cup {<<B64Char(v), B64Char(v), B64Char(v), B64Char(v)>> : v \in 0..63}
